@@ -164,6 +164,8 @@ class MapInterp(Interp):
                 return range(args[0])
             if f[1] in ('Exception', 'NotImplementedError'):
                 return ('exception', f[1])
+            if f[1] == 'np.array' and len(args) == 1:
+                return self.stack(args[0])
             raise TranslateError('call of ' + f[1])
         raise TranslateError('call: ' + t2.src(n))
 
@@ -178,6 +180,22 @@ class MapInterp(Interp):
         return super().ev_Compare(n, env)
 
     def stmt(self, s, env):
+        if isinstance(s, ast.Assign) and len(s.targets) == 1 and isinstance(s.targets[0], ast.Tuple):
+            names = s.targets[0].elts
+            v = self.ev(s.value, env)
+            if not all(isinstance(e, ast.Name) for e in names):
+                raise TranslateError('unpacking target: ' + t2.src(s))
+            if isinstance(v, Sym) and v.rank >= 1:
+                if len(names) != self.n:
+                    raise TranslateError(f'unpacking {len(names)} components of a tensor of extent {self.n}')
+                for k, e in enumerate(names):
+                    env[e.id] = v.sub([k])
+                return
+            if isinstance(v, tuple) and len(v) == len(names) and not (v and v[0] == 'builtin'):
+                for e, x in zip(names, v):
+                    env[e.id] = x
+                return
+            raise TranslateError('unpacking: ' + t2.src(s))
         if isinstance(s, ast.Assign) and len(s.targets) == 1:
             tg = s.targets[0]
             # self._X = e
@@ -523,6 +541,68 @@ def _run_iso(it, m, env):
     raise TranslateError(f'iso {m.name}: no return')
 
 
+# ---- P1 elements (the elements of straight simplicial meshes) and the basis expansion of MappingIsoparametric ------------
+P1 = [(1, 'skfem/element/element_line/element_line_p1.py', 'ElementLineP1'),
+      (2, 'skfem/element/element_tri/element_tri_p1.py', 'ElementTriP1'),
+      (3, 'skfem/element/element_tet/element_tet_p1.py', 'ElementTetP1')]
+FMAP_LINES = ['for itr in range(t.shape[0]):', 'phi, _ = self.elem.lbasis(X, itr)']
+FMAP_ACC = ['out += p[i, t[itr, :]][:, None] * phi', 'out += p[i, t[itr, tind]][:, None] * phi']
+J_LINES = ['for itr in range(t.shape[0]):', '_, dphi = self.elem.lbasis(X, itr)']
+J_ACC = ['out += p[i, t[itr, :]][:, None] * dphi[j]', 'out += p[i, t[itr, tind]][:, None] * dphi[j]']
+
+
+def p1_defs():
+    out = []
+    for d, path, cls in P1:
+        it = MapInterp(path, cls)
+        it.n = d
+        it.used_tables = set()
+        m = it.methods.get('lbasis')
+        if m is None or [a.arg for a in m.args.args] != ['self', 'X', 'i']:
+            raise TranslateError(f'{cls}.lbasis signature')
+        X = Sym(1, lambda idx: f'(X {cidx(idx[0])})', term='X')
+        phis, dphis = [], []
+        for k in range(d + 1):
+            r = it.call(m, [Obj('self'), X, k], {})
+            if not (isinstance(r, tuple) and len(r) == 2):
+                raise TranslateError(f'{cls}.lbasis does not return (phi, dphi)')
+            phi, dphi = it.scalar(r[0]), r[1]
+            if phi.rank != 0 or not isinstance(dphi, Sym) or dphi.rank != 1:
+                raise TranslateError(f'{cls}.lbasis: tensor orders of (phi, dphi)')
+            phis.append(phi.at([]))
+            dphis.append([dphi.at([j]) for j in range(d)])
+        try:
+            it.call(m, [Obj('self'), X, d + 1], {})
+            raise TranslateError(f'{cls}.lbasis accepts the index {d + 1}')
+        except TranslateError as e:
+            if 'accepts the index' in str(e):
+                raise
+        pats = ' '.join(f'| {cidx(k)} => {t}' for k, t in enumerate(phis))
+        out.append(f'(* {cls}.lbasis *)\nDefinition p1_phi_{d} (X : vec R) : vec R :=\n  fun k => match k with {pats} | _ => 0 end.')
+        pats = ' '.join(f'| {cidx(k)}, {cidx(j)} => {t}' for k, row in enumerate(dphis) for j, t in enumerate(row))
+        out.append(f'Definition p1_dphi_{d} (X : vec R) : mat R :=\n  fun k j => match k, j with {pats} | _, _ => 0 end.')
+    # the basis expansion of Fmap / _J
+    it = MapInterp(ISO, 'MappingIsoparametric')
+    for name, lines, acc in (('Fmap', FMAP_LINES, FMAP_ACC), ('_J', J_LINES, J_ACC)):
+        if name not in it.methods:
+            raise TranslateError(f'{ISO}: {name} missing')
+        src = [ln.strip() for ln in t2.src(it.methods[name]).split('\n')]
+        for ln in lines:
+            if src.count(ln) != 2:
+                raise TranslateError(f'{ISO}: {name}: expected two occurrences of {ln!r}')
+        for ln in acc:
+            if src.count(ln) != 1:
+                raise TranslateError(f'{ISO}: {name}: expected {ln!r}')
+        if src.count('p = self.mesh.doflocs') != 1 or src.count('t = self.mesh.dofs.element_dofs') != 1:
+            raise TranslateError(f'{ISO}: {name}: p / t definitions changed')
+        if sum(1 for ln in src if ln.startswith('out +=') or ln.startswith('out =')) != 4:
+            raise TranslateError(f'{ISO}: {name}: unexpected updates of out')
+    fm = t2.src(it.methods['F'])
+    if 'return np.array([self.Fmap(i, X, tind) for i in range(X.shape[0])])' not in fm:
+        raise TranslateError(f'{ISO}: F changed')
+    return '\n'.join(out)
+
+
 HEADER = '''(* GENERATED by vlib/c10_tr.py from skfem/mapping/mapping_affine.py, mapping_isoparametric.py, refdom.py -- do not edit *)
 From Coq Require Import List Arith.
 Import ListNotations.
@@ -538,8 +618,10 @@ def generate():
     nref, nref_data = evaluation_methods()
     ref, ref_data = refdom_tables()
     iso = iso_defs()
+    p1 = p1_defs()
     txt = HEADER + '\n(* ===== MappingAffine: _init_Ab, _init_invA, _init_boundary_mapping ===== *)\n' + aff + \
         '\n\n(* ===== Nref tables of MappingAffine.normals ===== *)\n' + nref + \
         '\n\n(* ===== refdom.py ===== *)\n' + ref + \
-        '\n\n(* ===== MappingIsoparametric: detDF, invDF, detDG ===== *)\n' + iso + '\nEnd Gen.\n'
+        '\n\n(* ===== MappingIsoparametric: detDF, invDF, detDG ===== *)\n' + iso + \
+        '\n\n(* ===== lbasis of the P1 elements (basis expansion of MappingIsoparametric.Fmap / _J) ===== *)\n' + p1 + '\nEnd Gen.\n'
     return txt, {'nref': nref_data, 'ref': ref_data}
